@@ -31,6 +31,43 @@ def twin(sc, rnd):
     return sc2
 
 
+def deep_history_template(rnd):
+    """a compound state with a deep history child over an orthogonal state with several regions, left and
+    re-entered through the history state: the restored same-depth states come out of a `set`"""
+    from sismic.model import (BasicState, CompoundState, DeepHistoryState, OrthogonalState, Transition)
+    letters = 'abcdefghijklmnopqrstuvwxyz'
+    used = set()
+
+    def nm():
+        while True:
+            n = ''.join(rnd.choice(letters) for _ in range(rnd.randint(2, 4)))
+            if n not in used:
+                used.add(n)
+                return n
+    sc = Statechart('hist', preamble='x = 0\ny = 0')
+    root, idle, par, orth, hist = nm(), nm(), nm(), nm(), nm()
+    sc.add_state(CompoundState(root, initial=idle), None)
+    sc.add_state(BasicState(idle), root)
+    sc.add_state(CompoundState(par, initial=orth), root)
+    sc.add_state(OrthogonalState(orth), par)
+    sc.add_state(DeepHistoryState(hist, memory=orth), par)
+    for _ in range(rnd.randint(2, 4)):
+        reg, a, b = nm(), nm(), nm()
+        sc.add_state(CompoundState(reg, initial=a, on_entry='x += 1'), orth)
+        sc.add_state(BasicState(a, on_entry='y = y * 2 + 1'), reg)
+        sc.add_state(BasicState(b, on_entry='y = y * 2'), reg)
+        sc.add_transition(Transition(a, b, event='g'))
+    sc.add_transition(Transition(idle, hist, event='e'))
+    sc.add_transition(Transition(par, idle, event='f'))
+    ops = [['exec', 0, 0]]
+    for ev in ['e', 'g', 'f', 'e', 'f', 'e']:
+        ops.append(['queue', 0, {'ev': ev, 'data': []}])
+        ops.append(['exec', 0, 0])
+        if rnd.random() < 0.3:
+            ops.append(['exec', 0, 0])
+    return sc, ops
+
+
 def tkey(t):
     return (t.source, t.target, t.event, t.guard, t.action, t.priority, tuple(t.preconditions),
             tuple(t.postconditions), tuple(t.invariants))
@@ -38,6 +75,15 @@ def tkey(t):
 
 class C07(InterpProp):
     id = 'C07'
+    # a relational property: the relation (twin / copy) is checked on the implementation by the oracle and
+    # proved for the model; a uniform change of behaviour is not this property's business
+    cmp_eff = ()
+    cmp_step = ()
+    cmp_slot = ()
+    cmp_callbacks = False
+    cmp_err = None
+    cmp_time = False
+    cmp_outcome = False
     quick_cases = 250
     thorough_cases = 8000
     n_ops = 30
@@ -58,11 +104,16 @@ class C07(InterpProp):
 
     def gen_case(self, rnd, tier):
         kn = self.knobs(rnd, tier)
-        g = gen.ChartGen(rnd, kn)
-        sc = g.build()
+        if rnd.random() < 0.08:
+            sc, ops1 = deep_history_template(rnd)
+        else:
+            g = gen.ChartGen(rnd, kn)
+            sc = g.build()
+            ops1 = None
         sc2 = twin(sc, rnd)
         e1, e2 = ChartEnc(sc), ChartEnc(sc2)
-        ops1 = gen.gen_ops(rnd, kn, self.n_ops)
+        if ops1 is None:
+            ops1 = gen.gen_ops(rnd, kn, self.n_ops)
         ops = [['create', 0, False, [], 0], ['create', 1, False, [], 0]]
         for op in ops1:
             ops.append(op)
@@ -70,7 +121,7 @@ class C07(InterpProp):
             op2[1] = 1
             ops.append(op2)
         deep = any(st['kind'] == 'deep' for st in e1.json['states'])
-        payload = {'kind': 'interp', 'charts': [e1.json, e2.json], 'ops': ops,
+        payload = {'kind': 'interp', 'charts': [e1.json, e2.json], 'ops': ops, 'deep': deep,
                    'hashseed': rnd.randint(1, 4000) if deep else rnd.choice([None] * 3 + [rnd.randint(1, 4000)])}
         return Case(payload, {'charts': [sc, sc2]}, model_ok=e1.supported and e2.supported)
 
@@ -78,17 +129,23 @@ class C07(InterpProp):
         obs = super().run_impl(case)
         hs = case.payload.get('hashseed')
         if hs is not None:
-            env = dict(os.environ, PYTHONHASHSEED=str(hs))
-            p = subprocess.run([sys.executable, '-m', 'harness.impl_sub'], input=json.dumps(case.payload),
-                               capture_output=True, text=True, env=env, cwd=engine.VERIF, timeout=120)
-            if p.returncode != 0:
-                raise engine.MachineryError('impl_sub failed: ' + p.stderr[-800:])
-            obs['_sub'] = json.loads(p.stdout)
+            subs = []
+            # set iteration order depends on the string hash seed: several seeds for charts with deep history
+            for k in range(3 if case.payload.get('deep') else 1):
+                env = dict(os.environ, PYTHONHASHSEED=str(hs + 7919 * k))
+                p = subprocess.run([sys.executable, '-m', 'harness.impl_sub'], input=json.dumps(case.payload),
+                                   capture_output=True, text=True, env=env, cwd=engine.VERIF, timeout=120)
+                if p.returncode != 0:
+                    raise engine.MachineryError('impl_sub failed: ' + p.stderr[-800:])
+                subs.append(json.loads(p.stdout))
+            obs['_sub'] = subs[0]
+            obs['_subs'] = subs
         return obs
 
     def normalize(self, obs):
         o = super().normalize(obs)
         o.pop('_sub', None)
+        o.pop('_subs', None)
         return o
 
     def oracle(self, case, obs, res):
@@ -147,8 +204,10 @@ class C07(InterpProp):
                 res.features.add('err:' + a['r']['err']['class'])
         if '_sub' in obs:
             res.features.add('hashseed-rerun')
-            d = engine.diff(super().normalize({'obs': obs['obs']}), super().normalize(obs['_sub']))
-            if d:
-                res.violations.append('re-run under PYTHONHASHSEED=%s differs: %s' % (case.payload['hashseed'], d))
+            for sub in obs.get('_subs', [obs['_sub']]):
+                d = engine.diff(self.full_view({'obs': obs['obs']}), self.full_view(sub))
+                if d:
+                    res.violations.append('re-run under another PYTHONHASHSEED (base %s) differs: %s' % (case.payload['hashseed'], d))
+                    break
         if not res.features:
             res.features.add('no-feature')
